@@ -432,14 +432,28 @@ def c17_check(payload):
     arg = parse(text)
     before = [str(s) for s in arg]
     n_before = len(arg)
+    ipl, opl = list(ip), list(op)
     try:
-        res2 = optimize(arg, list(ip), list(op), **flags)
+        res2 = optimize(arg, ipl, opl, **flags)
     except Exception as e:  # pylint: disable=broad-except
         return {"kind": "second-run-raises", "exc": repr(e)[:200]}
     after = [str(s) for s in arg]
     if before != after or len(arg) != n_before:
         return {"kind": "argument-modified", "before": [b for b, a in zip(before, after) if a != b][:3],
                 "after": [a for b, a in zip(before, after) if a != b][:3]}
+    if [str(x) for x in ipl] != [str(x) for x in ip] or [str(x) for x in opl] != [str(x) for x in op]:
+        return {"kind": "predicate-list-argument-modified", "input_before": [str(x) for x in ip],
+                "input_after": [str(x) for x in ipl], "output_before": [str(x) for x in op],
+                "output_after": [str(x) for x in opl]}
+    # the same with declarations the program does not agree with (nothing declared): the lists stay empty
+    e_in, e_out = [], []
+    try:
+        optimize(parse(text), e_in, e_out, **flags)
+    except Exception:  # pylint: disable=broad-except
+        pass
+    if e_in or e_out:
+        return {"kind": "predicate-list-argument-modified", "input_before": [], "input_after": [str(x) for x in e_in],
+                "output_before": [], "output_after": [str(x) for x in e_out]}
     if [str(s) for s in res2] != out1:
         return {"kind": "second-run-differs", "first": out1[:6], "second": [str(s) for s in res2][:6]}
     # history: other programs optimised in between
